@@ -114,6 +114,9 @@ type Scenario struct {
 	After func(c *Ctx)
 	// Class prefixes the violation classes of this scenario (default: Name).
 	Class string
+	// Sequential: the driver has a single client thread and no concurrency of interest (skipped by the
+	// free-running race pass).
+	Sequential bool
 }
 
 // restricted deviation class: rendezvous, spawn, select arms, fs effects and the root lock.
@@ -729,8 +732,8 @@ func freeRun(prop string, scenarios []Scenario) {
 	base := fmt.Sprintf("%s/verif-free-%d", mc.ShmBase(), os.Getpid())
 	defer os.RemoveAll(base)
 	for _, s := range scenarios {
-		if len(s.Quick) == 0 {
-			continue
+		if len(s.Quick) == 0 || s.Sequential {
+			continue // sequential scenarios have no interleaving for the race pass to sample
 		}
 		sum.Scenarios++
 		sum.Outcomes[s.Name] = map[string]int{}
